@@ -101,7 +101,7 @@ fn dispatch(
         "rawsig" => ops_block::rawsig(case, reg),
         "rawverify" => ops_block::rawverify(case),
         "keys12" => ops_block::keys12(case),
-        "verify" => ops_verify::verify(case, scratch, idx),
+        "verify" => ops_verify::verify(case, reg, scratch, idx),
         "record" => ops_verify::record(case),
         "run" => ops_verify::run(case, reg),
         "canon" => ops_misc::canon(case),
